@@ -210,14 +210,24 @@ class JsonTables:
                         shape = "id-list-relink"
                 elif isinstance(v, ast.IfExp) and "get_" in txt and "is not None" in ast.unparse(v.test):
                     shape = "id-relink"
-                self.relink[(cls, n.targets[0].attr)] = (shape, n)
                 pm = getattr(self, "_pm", None)
                 if pm is None:
                     pm = self._pm = parent_map(rd.node)
+                # statement form of the same thing:  if x.attr is not None: x.attr = <lookup by x.attr>[0]
+                # (when the saved reference is None there is nothing to re-link)
+                own_guard = None
+                g0 = pm.get(id(n))
+                if isinstance(g0, ast.If) and any(n is b for b in g0.body) and isinstance(g0.test, ast.Compare) and len(g0.test.ops) == 1 \
+                        and isinstance(g0.test.ops[0], ast.IsNot) and isinstance(g0.test.comparators[0], ast.Constant) and g0.test.comparators[0].value is None \
+                        and ast.unparse(g0.test.left) == ast.unparse(n.targets[0]):
+                    own_guard = g0
+                    if "get_" in txt and txt.endswith("[0]") and not g0.orelse:
+                        shape = "id-relink"
+                self.relink[(cls, n.targets[0].attr)] = (shape, n)
                 g = pm.get(id(n))
                 cond = None
                 while g is not None and g is not rd.node:
-                    if isinstance(g, (ast.If, ast.While, ast.Try)):
+                    if isinstance(g, (ast.If, ast.While, ast.Try)) and g is not own_guard:
                         cond = g
                     g = pm.get(id(g))
                 if cond is not None:
